@@ -1,7 +1,7 @@
 """C12: per-actor certificates + glue (see lean/Poupool/Properties/C12.lean and checks/actors_common.py)."""
 from checks import actors_common as ac
 
-THEOREMS = ['Poupool.C12.open_needs_tank', 'Poupool.C12.refused_request_changes_nothing', 'Poupool.C12.cover_sequencing', 'Poupool.C12.pumps_off_while_cover_moves', 'Poupool.C12.cover_stopped_when_phase_left', 'Poupool.C12.opened_only_at_100', 'Poupool.C12.closed_only_at_eco_position', 'Poupool.C12.decade_range', 'Poupool.C07.wash_needs_high_tank', 'Poupool.C06.comfort_to_standby_is_guarded']
+THEOREMS = ['Poupool.C12.standby_guard_meaning', 'Poupool.C12.high_guard_meaning', 'Poupool.C12.tank_guard_meaning', 'Poupool.C12.open_needs_tank', 'Poupool.C12.refused_request_changes_nothing', 'Poupool.C12.cover_sequencing', 'Poupool.C12.pumps_off_while_cover_moves', 'Poupool.C12.cover_stopped_when_phase_left', 'Poupool.C12.opened_only_at_100', 'Poupool.C12.closed_only_at_eco_position', 'Poupool.C12.decade_range', 'Poupool.C07.wash_needs_high_tank', 'Poupool.C06.comfort_to_standby_is_guarded']
 MODULE = "Poupool.Properties.C12"
 
 
@@ -66,6 +66,8 @@ print("RESULT " + json.dumps(out))
 
 
 def extra(chk, info, res):
+    from checks import guards_common
+    guards_common.correspondence(chk, ['tank_is_low', 'tank_is_high', 'pump_stopped_in_standby'])
     """exhaustive differential test of the cover polls: every position 0..100 (x every eco position 0..100)"""
     import json
     import os
